@@ -235,8 +235,8 @@ def matlab_dispatch_facts(files, module):
             for cm in re.finditer(re.escape(wrapper) + r'\((\d+)', line):
                 sites.append((path, int(cm.group(1)), func))
     cpp = files.get(wrapper + ".cpp", "")
-    cases = [(int(a), b) for a, b in re.findall(r'case (\d+):\s*\n\s*(\w+)\(nargout, out, nargin-1, in\+1\);', cpp)]
-    routines = re.findall(r'^void (\w+)\(int nargout, mxArray \*out\[\], int nargin, const mxArray \*in\[\]\)', cpp, re.M)
+    cases = [(int(a), b) for a, b in re.findall(r'case (\d+):\s*\n\s*([\w ]+)\(nargout, out, nargin-1, in\+1\);', cpp)]
+    routines = re.findall(r'^void ([\w ]+)\(int nargout, mxArray \*out\[\], int nargin, const mxArray \*in\[\]\)', cpp, re.M)
     return sites, cases, routines
 
 
@@ -290,9 +290,10 @@ def dispatch_problems(files, module):
         elif f in ("string_serialize", "string_deserialize"):
             ok = base.endswith(f)
         elif 'classdef' in files[path]:
-            ok = base.endswith("_" + f) or ("_" + f + "_") in base or base.endswith(f)
+            # templated members: the .m function carries the instantiated name, the routine the original one
+            ok = any(base.endswith("_" + f[:k]) for k in range(1, len(f) + 1))
         else:
-            ok = base == f or base.startswith(f)
+            ok = base == f
         if not ok:
             probs.append("id %d: call site %s/%s is dispatched to routine %s" % (sid, path, func, r))
     for cid, r in cases:
